@@ -36,7 +36,7 @@ prop('C01',
      level='other',
      units=[CF, F + 'shape.compute_shape_features', F + 'cyclepoints.compute_cyclepoints',
             'bycycle.burst.cycle.detect_bursts_cycles', 'bycycle.utils.dataframes.drop_samples_df'],
-     jobs=['pipeline:C01', 'find_extrema', 'find_zerox'],
+     jobs=['pipeline:C01', 'find_extrema', 'find_zerox', 'armed'],
      unit_jobs={},
      trusted=[EXTERNAL['filter']],
      explanation='Proved (unbounded, for every signal satisfying osc3, every option combination in the typed cases): '
@@ -52,7 +52,7 @@ prop('C04',
      units=[F + 'shape.compute_durations', F + 'shape.compute_extrema_voltage', F + 'shape.compute_symmetry',
             F + 'shape.compute_band_amp', 'bycycle.utils.dataframes.rename_extrema_df',
             F + 'shape.compute_shape_features', CF],
-     jobs=['pipeline:C04'],
+     jobs=['pipeline:C04', 'armed'],
      trusted=[EXTERNAL['amp'], EXTERNAL['mean']],
      explanation='Proved: every shape feature column of compute_shape_features and of compute_features equals its documented '
                  'function of the row\'s cyclepoints and the ORIGINAL signal, for peak- and trough-centred tables (the '
@@ -64,7 +64,7 @@ prop('C05',
      level='other',
      units=[F + 'burst.compute_amp_fraction', F + 'burst.compute_amp_consistency', F + 'burst.compute_period_consistency',
             F + 'burst.compute_monotonicity', F + 'burst.compute_burst_features', CF],
-     jobs=['burst_features_small', 'pipeline:C05'],
+     jobs=['burst_features_small', 'pipeline:C05', 'armed'],
      unit_jobs={F + 'burst.compute_amp_consistency': ['burst_features_small'],
                 F + 'burst.compute_period_consistency': ['burst_features_small'],
                 F + 'burst.compute_amp_fraction': ['burst_features_small']},
@@ -79,7 +79,7 @@ prop('C06',
      level='other',
      units=['bycycle.burst.cycle.detect_bursts_cycles', CF],
      lemmas=['minrun_monotone'],
-     jobs=['detect_bursts_cycles', 'pipeline:C06'],
+     jobs=['detect_bursts_cycles', 'pipeline:C06', 'armed'],
      unit_jobs={'bycycle.burst.cycle.detect_bursts_cycles': ['detect_bursts_cycles']},
      explanation='Proved: detect_bursts_cycles labels exactly minrun(q, min_n_cycles) with q = strict > on all four '
                  'thresholds, first and last cycle excluded (IEEE: nan never qualifies); compute_features routes the '
@@ -91,7 +91,7 @@ prop('C07',
      level='other',
      units=[F + 'burst.compute_burst_fraction', F + 'burst.compute_burst_features', 'bycycle.burst.amp.detect_bursts_amp', CF],
      lemmas=['minrun_monotone'],
-     jobs=['detect_bursts_amp', 'pipeline:C07'],
+     jobs=['detect_bursts_amp', 'pipeline:C07', 'armed'],
      unit_jobs={'bycycle.burst.amp.detect_bursts_amp': ['detect_bursts_amp']},
      trusted=[EXTERNAL['dual'], EXTERNAL['mean']],
      explanation='Proved relative to the external detector: burst_fraction[i] = mean of the detector mask over [last, next] '
@@ -183,7 +183,7 @@ prop('C15', level='other',
             F + 'burst.compute_burst_features', F + 'burst.compute_amp_fraction', F + 'burst.compute_amp_consistency',
             F + 'burst.compute_period_consistency', F + 'burst.compute_monotonicity', F + 'burst.compute_burst_fraction',
             DF + 'drop_samples_df'],
-     jobs=['purity', 'pipeline:C15'],
+     jobs=['purity', 'pipeline:C15', 'armed'],
      explanation='Frame obligations (modifies = []) at every store and mutating call of the listed feature functions: a store must '
                  'reach an object allocated on the path (library allocation behaviour from the assumed numpy / pandas-3 copy-on-write '
                  'contracts). Not yet under contract: group functions, recompute_edges, limit_df, epoch_df, plotting functions - '
